@@ -235,6 +235,95 @@ def observe_assign(hosts, n):
 
 
 # ---------------------------------------------------------------------------------------------------
+# the real Driver.start_benchmark with a recording driver actor
+# ---------------------------------------------------------------------------------------------------
+class _EsFactory:
+    def __init__(self, *a, **k):
+        pass
+
+    def create(self):
+        from unittest import mock
+
+        return mock.MagicMock()
+
+
+class RecordingDriverActor:
+    """Stands in for DriverActor: records what Driver.start_benchmark asks it to do AT CALL TIME (the actor system
+    serialises a StartWorker message when it is sent; later changes of the objects do not reach the worker)."""
+
+    def __init__(self, driver_of):
+        self.created = []
+        self.sent = []
+        self.cluster_details = None
+        self._driver_of = driver_of
+
+    def prepare_track(self, hosts, cfg, track):
+        pass
+
+    def create_client(self, host, cfg, worker_id):
+        self.created.append({"wid": int(worker_id), "host": str(host)})
+        return ("worker", int(worker_id), str(host))
+
+    def start_worker(self, worker, worker_id, cfg, track, client_allocations, client_contexts=None):
+        d = self._driver_of()
+        rows = []
+        rowok = True
+        for a in client_allocations.allocations:
+            c = int(a["client_id"])
+            rows.append(c)
+            mine = d.allocations[c] if 0 <= c < len(d.allocations) else None
+            rowok = rowok and mine is not None and [project_cell(x) for x in a["tasks"]] == [project_cell(x) for x in mine]
+        host = worker[2] if isinstance(worker, tuple) and len(worker) == 3 else "?"
+        self.sent.append({"wid": int(worker_id), "host": host, "rows": rows, "rowok": bool(rowok), "ctx": sorted(int(c) for c in (client_contexts or {}))})
+
+
+def observe_start(hosts, schedule_objs):
+    """Runs the real Driver.prepare_benchmark + Driver.start_benchmark for the load-driver hosts `hosts`
+    ([{"host", "cores"}]) and the given real schedule. prepare_benchmark only knows one core count for all hosts; for a
+    layout with different core counts Driver.load_driver_hosts is set to `hosts` before start_benchmark.
+    Returns {n, a, created, sent, cpw}."""
+    from unittest import mock
+
+    from esrally.driver import driver
+    from esrally.track import track
+
+    from . import racesim
+
+    racesim.ensure_rally_home()
+    names = [h["host"] for h in hosts]
+    cfg = racesim.build_config(None, True, "continue", None, 1, hosts[0]["cores"], names)
+    t = track.Track(name="verif", challenges=[track.Challenge("c", default=True, schedule=schedule_objs)])
+    holder = {}
+    rec = RecordingDriverActor(lambda: holder["d"])
+    try:
+        with mock.patch("esrally.utils.net.resolve", side_effect=lambda h: h):
+            d = driver.Driver(rec, cfg, es_client_factory_class=_EsFactory)
+            holder["d"] = d
+            d.prepare_benchmark(t)
+    except Exception as ex:  # pylint: disable=broad-except
+        raise tlc.MachineryError("cannot prepare a Driver for the start_benchmark leg: %s: %s" % (type(ex).__name__, ex)) from ex
+    try:
+        if [(str(h["host"]), int(h["cores"])) for h in d.load_driver_hosts] != [(h["host"], h["cores"]) for h in hosts]:
+            d.load_driver_hosts = [dict(h) for h in hosts]
+        try:
+            d.start_benchmark()
+            n = len(d.allocations)
+            a = observe_assign(hosts, n)
+        except tlc.MachineryError:
+            raise
+        except Exception as ex:  # pylint: disable=broad-except
+            raise ObservedCrash("Driver.start_benchmark raised %s: %s" % (type(ex).__name__, ex)) from ex
+        cpw = [int(d.clients_per_worker.get(c, -1)) for c in range(n)]
+        return {"n": n, "a": a, "created": rec.created, "sent": rec.sent, "cpw": cpw}
+    finally:
+        try:
+            if d.metrics_store is not None:
+                d.metrics_store.close()
+        except Exception:  # pylint: disable=broad-except
+            pass
+
+
+# ---------------------------------------------------------------------------------------------------
 # the real task filter
 # ---------------------------------------------------------------------------------------------------
 def filter_strings(filters):
